@@ -231,7 +231,11 @@ impl Tzif {
                     })
                 }
             }
-            Err(idx) if idx == 0 => Ok(get_timezone_offset(db, idx)),
+            // Before the first transition local time is specified by time type 0 (RFC 8536 3.2).
+            Err(idx) if idx == 0 => Ok(TimeZoneOffset {
+                offset: db.local_time_type_records[0].utoff.0,
+                transition_epoch: None,
+            }),
             Err(idx) => {
                 if db.transition_times.len() <= idx {
                     // The transition time provided is beyond the length of
